@@ -840,6 +840,12 @@ class Sim:
         if kind == "keplernum" or (kind == "ephem" and self.specs[i]["src"]["kind"] == "keplernum"):
             chk = t.call.get("check_idx")
             do_check = (not is_event) and (chk is None or (t.n_samples - 1) in chk)
+            if kind == "keplernum" and self.specs[i].get("mans"):
+                # the re-sampling polynomial runs across the velocity jumps of the maneuvers: between grid points the stream and a direct
+                # propagation legitimately differ (C06 / C17 territory); such orbits are judged by the date contract and by the stream of the
+                # same call made alone with fresh objects on a pristine node
+                do_check = False
+                ctx.probe("numerical_orbit_with_maneuvers")
         if is_event and t.lshared_live:
             # the plan made two live iterations share this listener object: the event comes from a
             # bisection between states of two different iterations; nothing is asserted about it
